@@ -273,6 +273,62 @@ theorem connect_dropped_frees_slot (d : Disp) (addr token : Nat) (slots : List (
   refine ⟨?_, (slotPop_some _ _ _ _ hp).2.2⟩
   simp [onControl, hs, hp]
 
+/-! ### One stream per handshake -/
+
+/-- **A duplicate of a SYN whose connection is live creates no second stream**: the acceptor is kept for the
+next request, the table is untouched. -/
+theorem duplicate_syn_creates_no_stream (d : Disp) (s : Syn) (a : Acceptor) (hf : d.streamsFull = false)
+    (hk : d.hasKey { addr := s.remote, id := w16 (s.h.connId + 1) } = true) :
+    d.matchSynWithAccept s a = (.synInvalid a, d, []) := by
+  simp [matchSynWithAccept, hf, hk]
+
+/-- **A handshake completes at most one connect**: the `connectOk` effect of a SYN-ACK belongs to the pending
+connect whose SYN it acknowledges, and that connect's slot is freed by it - a second (duplicate) SYN-ACK finds no
+slot with that sequence number unless another connect owns one. -/
+theorem slotPop_pred (p : Connecting → Bool) (l : List (Option Connecting)) (c : Connecting) (l' : List (Option Connecting))
+    (h : slotPop p l = some (c, l')) : p c = true := by
+  induction l generalizing c l' with
+  | nil => simp [slotPop] at h
+  | cons x xs ih =>
+    cases x with
+    | none =>
+      simp only [slotPop, Option.map_eq_some_iff] at h
+      obtain ⟨⟨c', r⟩, hr, he⟩ := h
+      simp only [Prod.mk.injEq] at he
+      exact he.1 ▸ ih c' r hr
+    | some y =>
+      simp only [slotPop] at h
+      split at h
+      · rename_i hpy
+        simp only [Option.some.injEq, Prod.mk.injEq] at h
+        exact h.1 ▸ hpy
+      · simp only [Option.map_eq_some_iff] at h
+        obtain ⟨⟨c', r⟩, hr, he⟩ := h
+        simp only [Prod.mk.injEq] at he
+        exact he.1 ▸ ih c' r hr
+
+theorem connectOk_consumes_slot (d : Disp) (addr : Nat) (h : Header) (token : Nat) (k : Key) (inst : Nat)
+    (he : Eff.connectOk token k inst ∈ (d.onMaybeConnectAck addr h).2) :
+    ∃ slots c slots', d.slotsOf addr = some slots ∧ slotPop (·.seqNr = h.ackNr) slots = some (c, slots') ∧
+      c.token = token ∧ c.seqNr = h.ackNr ∧ k = { addr := addr, id := h.connId } := by
+  unfold onMaybeConnectAck at he
+  split at he
+  · simp at he
+  · split at he
+    · simp at he
+    · rename_i slots hs
+      split at he
+      · simp at he
+      · rename_i c slots' hp
+        dsimp only at he
+        have hpc := slotPop_pred _ _ _ _ hp
+        split at he <;> split at he
+        all_goals first
+          | (simp at he; done)
+          | (simp only [List.mem_singleton, Eff.connectOk.injEq] at he
+             obtain ⟨rfl, rfl, _⟩ := he
+             exact ⟨slots, c, slots', hs, hp, rfl, by simpa using hpc, rfl⟩)
+
 /-! ### Non-vacuity -/
 
 example :
